@@ -367,3 +367,114 @@ Proof.
   apply path_eqb_eq in Q. subst q. destruct Hh as [Hh|[]]. subst h. subst q'.
   vm_compute. split; [reflexivity | eexists; reflexivity].
 Qed.
+
+(* ------------------------------------------------------------------------ *)
+(*  optimized=True on an HDF5 entry file                                      *)
+(* ------------------------------------------------------------------------ *)
+From Coq Require Import Permutation.
+
+Lemma add_all_disjoint : forall s t, keys_unique s -> (forall e, In e s -> keyed e t = false) ->
+  add_all s t = (t ++ s)%list.
+Proof.
+  induction s as [|e s IH]; intros t U D; [simpl; rewrite app_nil_r; reflexivity|].
+  destruct U as [Ue Us]. rewrite add_all_cons, add_one_unfold, (D e (or_introl eq_refl)).
+  rewrite IH; [rewrite <- app_assoc; reflexivity | exact Us |].
+  intros c Hc. rewrite keyed_app, (D c (or_intror Hc)). simpl. rewrite orb_false_r.
+  rewrite same_key_sym. destruct (same_key e c) eqn:K; [|reflexivity]. exfalso.
+  assert (keyed e s = true) by (unfold keyed; apply existsb_exists; exists c; split; assumption). congruence.
+Qed.
+
+Section Opt.
+  Variable fs : fsys.
+  Variable cwd : path.
+
+  (* the plain and the optimized read of one entry: same outcome, same files opened, and the components
+     differ at most in how the file's own networks are put in (merged first / appended last) *)
+  Definition opt_rel (r r' : res) : Prop :=
+    match r, r' with
+    | Done (d, al), Done (d', al') =>
+      al' = al /\ (d' = d \/ (d_incs d' = d_incs d /\ exists extra nets,
+                               d_comps d = add_all extra nets /\ d_comps d' = (extra ++ nets)%list))
+    | Err e, Err e' => e = e'
+    | OutOfFuel, OutOfFuel => True
+    | _, _ => False
+    end.
+
+  Lemma opt_rel_refl : forall r, opt_rel r r.
+  Proof. intros [[d al]|e|]; simpl; auto. Qed.
+
+  Theorem optimized_vs_plain : forall fuel opt p al,
+    opt_rel (read_entry_file fs cwd fuel p al) (read_entry_file_opt fs cwd fuel opt p al).
+  Proof.
+    intros fuel opt p al. unfold read_entry_file_opt.
+    destruct (opt && entry_is_h5 p) eqn:O; [|apply opt_rel_refl].
+    apply andb_true_iff in O. destruct O as [_ E]. unfold read_entry_file, read_file. rewrite E.
+    destruct (negb (is_file fs p)); [reflexivity|]. unfold load_h5, load_h5_opt.
+    destruct (lookup p (fs_files fs)) as [[x|nets [x|]]|]; try reflexivity; [|simpl; auto].
+    destruct (read_x fs cwd (rd fs cwd fuel) (dirname p) x (mark p al)) as [[extra al']|e|]; try reflexivity.
+    simpl. split; [reflexivity|]. right. split; [reflexivity|]. exists (d_comps extra), nets. split; reflexivity.
+  Qed.
+
+  Lemma load_h5_opt_extends : forall r1 r2, extends r1 r2 -> forall loc al r,
+    load_h5_opt fs cwd r1 loc al = r -> r <> OutOfFuel -> load_h5_opt fs cwd r2 loc al = r.
+  Proof.
+    intros r1 r2 Hx loc al r H N. unfold load_h5_opt in *.
+    destruct (lookup loc (fs_files fs)) as [[x|nets [x|]]|]; try exact H.
+    destruct (read_x fs cwd r1 (dirname loc) x al) as [[d1 al1]| |] eqn:L.
+    - rewrite (read_x_extends fs cwd r1 r2 Hx _ _ _ _ L) by discriminate. exact H.
+    - rewrite (read_x_extends fs cwd r1 r2 Hx _ _ _ _ L) by discriminate. exact H.
+    - subst r. congruence.
+  Qed.
+
+  Theorem read_entry_file_opt_terminates : forall opt p al,
+    read_entry_file_opt fs cwd (enough fs) opt p al <> OutOfFuel /\
+    forall k, enough fs <= k ->
+      read_entry_file_opt fs cwd k opt p al = read_entry_file_opt fs cwd (enough fs) opt p al.
+  Proof.
+    intros opt p al.
+    assert (N : read_entry_file_opt fs cwd (enough fs) opt p al <> OutOfFuel).
+    { pose proof (optimized_vs_plain (enough fs) opt p al) as R.
+      destruct (read_entry_file_terminates fs cwd p al) as [Np _].
+      destruct (read_entry_file fs cwd (enough fs) p al) as [[d a]|e|];
+        destruct (read_entry_file_opt fs cwd (enough fs) opt p al) as [[d' a']|e'|]; simpl in R; try contradiction; congruence. }
+    split; [exact N|]. intros k Hk. revert N. unfold read_entry_file_opt.
+    destruct (opt && entry_is_h5 p); [|intros _; apply (proj2 (read_entry_file_terminates fs cwd p al) k Hk)].
+    destruct (negb (is_file fs p)); [reflexivity|]. intro N.
+    apply (load_h5_opt_extends _ _ (rd_mono fs cwd _ _ Hk)); [reflexivity | exact N].
+  Qed.
+
+  (* the two flag values return the same union (as a multiset; per member list only the position of the
+     file's own network differs) whenever no component met through the includes carries the id of one of
+     the file's own networks *)
+  Theorem optimized_same_union : forall fuel p al nets x extra al',
+    lookup p (fs_files fs) = Some (FH5 nets (Some x)) -> entry_is_h5 p = true ->
+    read_entry_string fs cwd fuel x (Some (dirname p)) (mark p al) = Done (extra, al') ->
+    read_entry_file fs cwd fuel p al = Done ({| d_comps := add_all (d_comps extra) nets; d_incs := [] |}, al') /\
+    read_entry_file_opt fs cwd fuel true p al = Done ({| d_comps := (d_comps extra ++ nets)%list; d_incs := [] |}, al') /\
+    (keys_unique (d_comps extra) -> (forall e, In e (d_comps extra) -> keyed e nets = false) ->
+     Permutation (add_all (d_comps extra) nets) (d_comps extra ++ nets)).
+  Proof.
+    intros fuel p al nets x extra al' L E H. unfold read_entry_string in H.
+    unfold read_entry_file_opt, read_entry_file, read_file, is_file, load_h5, load_h5_opt. rewrite E, L. simpl. rewrite H.
+    split; [reflexivity|]. split; [reflexivity|].
+    intros U D. rewrite (add_all_disjoint _ _ U D). apply Permutation_app_comm.
+  Qed.
+End Opt.
+
+(* ... and not otherwise: the included file defines a network with the id of the HDF5 file's own network;
+   the plain read keeps one of them, the optimized read returns both *)
+Definition fs_optdup : fsys :=
+  {| fs_files := [(["n.nml.h5"], FH5 [ {| c_list := "networks"; c_id := Id "net0"; c_tag := 1 |} ]
+                                     (Some {| x_comps := []; x_incs := [ {| h_abs := false; h_segs := ["a.nml"] |} ] |}));
+                  (["a.nml"], FXml {| x_comps := [ {| c_list := "networks"; c_id := Id "net0"; c_tag := 2 |} ]; x_incs := [] |})];
+     fs_dirs := [[]] |}.
+
+Theorem optimized_id_twice_witness :
+  exists d d' al,
+    read_entry_file fs_optdup [] (enough fs_optdup) ["n.nml.h5"] [] = Done (d, al) /\
+    read_entry_file_opt fs_optdup [] (enough fs_optdup) true ["n.nml.h5"] [] = Done (d', al) /\
+    map c_tag (d_comps d) = [1%Z] /\ map c_tag (d_comps d') = [2%Z; 1%Z] /\ ~ keys_unique (d_comps d').
+Proof.
+  eexists. eexists. eexists. split; [vm_compute; reflexivity|]. split; [vm_compute; reflexivity|].
+  split; [reflexivity|]. split; [reflexivity|]. simpl. intros [K _]. vm_compute in K. discriminate.
+Qed.
